@@ -103,6 +103,17 @@ def phi(c, a, b):
         return c
     if a == FALSE and b == TRUE:
         return neg_cond(c)
+    if isinstance(b, tuple) and b and b[0] == 'phi' and isinstance(c, tuple) and c[:1] == ('op',) and c[1] in ('gt', 'ge', 'lt', 'le') and len(c[2]) == 2:
+        # in the else-branch of `x > y` the test `x <= y` is redundant (values are finite: every stored value has passed the crate's
+        # own finiteness assertion, so a comparison and its complement partition the cases): phi(x>y, A, phi(x<=y && R, B, C))
+        comp = ('op', {'gt': 'le', 'ge': 'lt', 'lt': 'ge', 'le': 'gt'}[c[1]], c[2])
+        c2 = b[1]
+        if c2 == comp:
+            return ('phi', c, a, b[2])
+        if isinstance(c2, tuple) and c2[:2] == ('op', 'and') and comp in c2[2]:
+            rest = tuple(x for x in c2[2] if x != comp)
+            nc2 = rest[0] if len(rest) == 1 else ('op', 'and', rest)
+            return ('phi', c, a, phi(nc2, b[2], b[3]))
     if isinstance(a, tuple) and isinstance(b, tuple) and a and b and a[0] == 'struct' and b[0] == 'struct' \
             and isinstance(a[2], dict) and isinstance(b[2], dict) and a[2] and set(a[2]) == set(b[2]):
         # a selection between two struct values is the struct of the selections (fields are read one by one)
@@ -690,6 +701,8 @@ class VG:
             return conj(cs)
         if k == 'pstruct' and not pat_is_some(p) and not pat_is_none(p):
             return TRUE
+        if k == 'ptuplestruct' and isinstance(p.get('path'), dict) and self.F.adts.get(p['path'].get('def'), {}).get('kind') == 'Struct':
+            return TRUE     # a tuple struct pattern is irrefutable (sub-patterns are bindings in this code base)
         if k == 'por':
             alts = [self.pat_cond(x, v) for x in p['pats']]
             if any(a == TRUE for a in alts):
@@ -819,6 +832,20 @@ class VG:
                 if fv is None:
                     fv = ('fieldof', v, f['name'])
                 self.bind_pat(f['pat'], fv, fr)
+            return
+        if k == 'ptuplestruct' and isinstance(p.get('path'), dict) and self.F.adts.get(p['path'].get('def'), {}).get('kind') == 'Struct':
+            # `Coeffs(c1, c2, c3)`: destructuring of a tuple struct of this crate: fields `.0`, `.1`, ..
+            for i, sp in enumerate(p['pats']):
+                fv = None
+                if isinstance(v, tuple) and v and v[0] == 'ref' and v[1][0] == 'field':
+                    fv = ('ref', ('field', v[1][1] + '.%d' % i))
+                elif isinstance(v, tuple) and v and v[0] == 'struct' and isinstance(v[2], dict):
+                    fv = v[2].get(str(i))
+                elif isinstance(v, tuple) and v and v[0] == 'in':
+                    fv = self.get_field(v[1] + '.%d' % i)
+                if fv is None:
+                    fv = ('fieldof', v, str(i))
+                self.bind_pat(sp, fv, fr)
             return
         if k == 'por' and p.get('pats'):
             # `(x, None) | (None, x)`: every alternative binds the same names; a name's value is that of the first alternative
